@@ -91,6 +91,9 @@ def _do_transfer(  # noqa: C901
         logger.debug("transfer dir: %s with %d files", dir_hash, len(bound_file_ids))
 
         dir_fails = _add(src, dest, bound_file_ids, **kwargs)
+        # files shared with a directory handled earlier were claimed (and possibly
+        # failed) there
+        dir_fails.update(failed_ids & entry_ids)
         if dir_fails:
             logger.debug(
                 "failed to upload full contents of '%s', aborting .dir file upload",
